@@ -22,14 +22,43 @@ def scenarios_from_writer(cfg, tag):
     return res, scens
 
 
-def pick(scens, n, sd):
-    """Deterministic diverse subset: sort by (number of blocks, interleaving) and stride, rotate by seed."""
+def _stride(scens, n, sd):
     if len(scens) <= n:
         return list(scens)
     key = lambda s: (len(s["stream"]), canon(s["labels"]))
     ss = sorted(scens, key=key)
     step = len(ss) / n
     return [ss[int((i * step + sd) % len(ss))] for i in range(n)]
+
+
+_rich_cache = {}
+
+
+def rich_scenarios(sd):
+    """Longer behaviours of the same Writer model (3 files, interleaved, multi-chunk contents) sampled by TLC's
+    simulation mode (seeded): the exhaustive graph at that depth is too large to export."""
+    if sd in _rich_cache:
+        return _rich_cache[sd]
+    r = tlc("MCWriter", "Writer.sim.cfg", f"sim{sd}", workers=1, simulate=400, depth=16, seed_arg=1000 + sd, timeout=600, quiet=True)
+    out, seen = [], set()
+    for e in r.prints["EDGE"]:
+        if e["fx"] and e["lab"]["op"] == "finalize" and e["lab"]["res"] == "Ok":
+            k = canon(e["to"])
+            inter = any(len(i["offs"]) >= 2 for i in e["hid"]["info"])
+            if k not in seen and len(e["files"]) >= 2 and inter:
+                seen.add(k)
+                out.append(dict(labels=e["to"], stream=e["stream"], files=e["files"], hid=e["hid"], rich=True))
+    out.sort(key=lambda s: (-len(s["files"]), canon(s["labels"])))
+    _rich_cache[sd] = out
+    return out
+
+
+def pick(scens, n, sd, rich_share=4):
+    """Deterministic diverse subset of the exhaustively exported scenarios (sorted by size, strided, rotated by the
+    seed) plus a share of longer simulated behaviours (interleaved files spanning several chunks and blocks)."""
+    nr = max(1, n // rich_share) if rich_share else 0
+    rich = rich_scenarios(sd % 7)[:nr] if nr else []
+    return _stride(scens, max(1, n - len(rich)), sd) + rich
 
 
 def run_repair_sweeps(jobs, profile_default, tag, shard=8):
